@@ -9,7 +9,8 @@ open Mistral Mistral.Lifecycle
     execution, the accepted flag -/
 def J (e : Exec) : Prop :=
   (isCompleted e.state = false → e.sent = 0) ∧
-  (isCompleted e.state = true → e.sent = (if e.parent.isSome then 1 else 0))
+  (isCompleted e.state = true → e.sent = (if e.parent.isSome then 1 else 0)) ∧
+  (e.state = .RUNNING ∨ e.state = .PAUSED ∨ isCompleted e.state = true)
 
 /-- the links are well formed: a parent task exists, the owner of a task exists -/
 def WF (w : World) : Prop :=
@@ -349,7 +350,7 @@ theorem good_finish (w : World) (i : Nat) (e : Exec) (s : St) (info : Info) (out
     rw [hpre] at hc; exact absurd hc (by simp)
   · intro hj
     obtain ⟨j1, _⟩ := hj
-    refine ⟨fun hc => ?_, fun _ => ?_⟩
+    refine ⟨fun hc => ?_, fun _ => ?_, Or.inr (Or.inr hs)⟩
     · simp only at hc; rw [hs] at hc; exact absurd hc (by simp)
     · simp only; rw [j1 hpre]
 
@@ -398,7 +399,7 @@ theorem good_cancelTx (w : World) (a : Nat) (msg : String) : Good w (cancelTx w 
     refine ⟨⟨rfl, rfl, rfl, by simp only [cancelled]; split <;> omega, fun hc' => ?_⟩, fun hj => ?_⟩
     · rw [hc] at hc'; exact absurd hc' (by simp)
     · obtain ⟨j1, _⟩ := hj
-      refine ⟨fun h => ?_, fun _ => ?_⟩
+      refine ⟨fun h => ?_, fun _ => ?_, Or.inr (Or.inr (by simp [cancelled]; decide))⟩
       · simp [cancelled] at h; exact absurd h (by decide)
       · show (if e.parent.isSome then e.sent + 1 else e.sent) = if e.parent.isSome then 1 else 0
         rw [j1 hc]
@@ -410,7 +411,8 @@ theorem good_startWf (c : Cfg) (w : World) (d : Nat) (parent : Option Nat) (inde
     Good w (startWf c w d parent index check) := by
   unfold startWf
   have h1 : Good w { w with execs := w.execs ++ [newExec d parent index] } :=
-    Good.addExec rfl rfl ⟨fun _ => rfl, fun h => by simp [newExec, isCompleted, Gen.States.completedStates] at h⟩ hp
+    Good.addExec rfl rfl ⟨fun _ => rfl, fun h => by simp [newExec, isCompleted, Gen.States.completedStates] at h,
+      Or.inl rfl⟩ hp
   simp only
   split
   · exact (h1.trans (good_dispatch _ _ _)).trans (good_checkAndComplete _ _)
@@ -686,12 +688,16 @@ theorem paused_target_not_completed (s : St) (hp : isPaused s = false)
   cases s <;> first | rfl | (exfalso; revert hp hv; decide)
 
 theorem good_setState (w : World) (x : Nat) (e : Exec) (s : St) (he : w.execs[x]? = some e)
-    (hc : isCompleted e.state = false) (hs : isCompleted s = false) : Good w (setState w x e s) := by
+    (hc : isCompleted e.state = false) (hs : isCompleted s = false) (h5 : s = .RUNNING ∨ s = .PAUSED) :
+    Good w (setState w x e s) := by
   refine Good.setExec (e := e) rfl he rfl ?_ ?_
   · exact ⟨rfl, rfl, rfl, Nat.le_refl _, fun h => by rw [hc] at h; exact absurd h (by simp)⟩
   · intro hj
-    refine ⟨fun _ => hj.1 hc, fun h => ?_⟩
-    simp only at h; rw [hs] at h; exact absurd h (by simp)
+    refine ⟨fun _ => hj.1 hc, fun h => ?_, ?_⟩
+    · simp only at h; rw [hs] at h; exact absurd h (by simp)
+    · rcases h5 with h5 | h5
+      · exact Or.inl h5
+      · exact Or.inr (Or.inl h5)
 
 /-- the loop over the sub-workflows inside pause_workflow -/
 theorem good_kids (c : Cfg) (f : Nat) (m : Mode) (hm : ∀ w x, Good w (prop c f m w x).1) (l : List Nat) :
@@ -742,7 +748,7 @@ theorem good_prop (c : Cfg) : ∀ (f : Nat) (m : Mode) (w : World) (x : Nat), Go
             split
             · rename_i hv
               have hnc := paused_target_not_completed e.state (by simpa using hnp) hv
-              have h1 : Good r.1 (setState r.1 x e .PAUSED) := good_setState _ _ _ _ he hnc (by decide)
+              have h1 : Good r.1 (setState r.1 x e .PAUSED) := good_setState _ _ _ _ he hnc (by decide) (Or.inr rfl)
               split
               · exact hk.trans h1
               · split
@@ -768,7 +774,7 @@ theorem good_prop (c : Cfg) : ∀ (f : Nat) (m : Mode) (w : World) (x : Nat), Go
                 split
                 · have hnc := pausedOrIdle_not_completed e.state (by simpa using hpi)
                   have h1 : Good r.1 (resumeSelf c (setState r.1 x e .RUNNING) x) :=
-                    (good_setState _ _ _ _ he hnc (by decide)).trans (good_resumeSelf c _ x)
+                    (good_setState _ _ _ _ he hnc (by decide) (Or.inl rfl)).trans (good_resumeSelf c _ x)
                   split
                   · exact hk.trans h1
                   · split
